@@ -1,6 +1,6 @@
 PROPERTY = 'C03'
 LEVEL = 'proof'
-VERUS = ['verus/C03.rs']
+VERUS = ['verus/C03.rs', 'verus/C03_worse.rs']
 TRUSTED = [
     'prelude / monomorphisation / U256 contract as in C01 (instance u128, 20 decimals); apply_factors (and through it apply_exponent_factor, apply_factor, checked_pow_fixed) is called through its C01 contract, re-proved in this same run',
     'carriers PriceImpactParams, PoolValue, PoolDelta{current, next}, PriceImpact, BalanceChange: field / variant lists compared with the repo on every run (R11); the other PoolDelta fields (delta, prices) are not read by these functions',
@@ -8,13 +8,14 @@ TRUSTED = [
 ]
 UNVERIFIED = [
     'non-unit exponents (rust_decimal branch of apply_exponent_factor): every contract here requires a whole-unit exponent, as the quantifier of the property does',
-    '"take the worse of real and virtual impact" (SwapMarketExt::swap_impact_value, PositionExt::position_price_impact) and the construction of the PoolDelta from pool amounts and prices (PoolDelta::try_new / try_from_delta_amounts): not under contract here (closures over the market; planned for Kani)',
+    '"take the worse of real and virtual impact": SwapMarketExt::swap_impact_value IS under contract (verus/C03_worse.rs: PoolDelta::price_impact and the virtual inventory\'s pool_delta_with_values as deterministic uninterpreted functions - the formula is proved in verus/C03.rs); PositionExt::position_price_impact (same pattern, with a nested helper type and the cancel / offset of the virtual open interest) and the construction of the PoolDelta from pool amounts and prices (PoolDelta::try_new / try_from_delta_amounts) are not under contract',
     'deposits: the same PoolDelta::price_impact is used; the deposit action that calls it is not covered',
 ]
 ASSUMPTIONS = []
 MANIFEST = dict(engine='verus',
-    technique='Verus contracts on PriceImpactParams::adjusted_factors and PoolDelta::{price_impact, price_impact_for_same_side_rebalance, price_impact_for_cross_over_rebalance, is_same_side_rebalance, diff values} extracted from /repo each run, over the C01 contract of apply_factors; monotonicity of the impact value by induction over pow_fixed; round-trip lemmas; native replay with a big-integer oracle',
-    text='Deductive proof, unbounded over all pool values, factors and whole-unit exponents: the positive factor used never exceeds the negative one; price_impact returns exactly the same-side or the cross-over formula and tags the change Improved / Worsened / Unchanged by the imbalance; a change that worsens (or keeps) the imbalance never receives a positive impact (both formulas; the cross-over case by monotonicity of floor(v^e f / UNIT) in v and f); an improving change that keeps the heavy side never receives a negative impact; a change that flips the heavy side followed by its exact reverse totals <= 0 exactly; on one side the total is <= 1 unit (10^-20 USD). TWO KNOWN FINDINGS, each with a witness proved by computation and reproduced natively: an improving change that flips the heavy side can receive a negative impact; a same-side round trip can total +1 unit.',
+    technique='Verus contracts on SwapMarketExt::swap_impact_value (which of the real and the virtual impact is charged) and on PriceImpactParams::adjusted_factors and PoolDelta::{price_impact, price_impact_for_same_side_rebalance, price_impact_for_cross_over_rebalance, is_same_side_rebalance, diff values} extracted from /repo each run, over the C01 contract of apply_factors; monotonicity of the impact value by induction over pow_fixed; round-trip lemmas; native replay with a big-integer oracle',
+    text='Which impact a swap / deposit is charged: the real pool\'s impact, replaced by the virtual inventory\'s (same usd deltas, prices and parameters) exactly when the real one is negative, the caller did not opt out, a virtual inventory exists and its impact is MORE negative - never better than the real pool\'s. '
+         + 'Deductive proof, unbounded over all pool values, factors and whole-unit exponents: the positive factor used never exceeds the negative one; price_impact returns exactly the same-side or the cross-over formula and tags the change Improved / Worsened / Unchanged by the imbalance; a change that worsens (or keeps) the imbalance never receives a positive impact (both formulas; the cross-over case by monotonicity of floor(v^e f / UNIT) in v and f); an improving change that keeps the heavy side never receives a negative impact; a change that flips the heavy side followed by its exact reverse totals <= 0 exactly; on one side the total is <= 1 unit (10^-20 USD). TWO KNOWN FINDINGS, each with a witness proved by computation and reproduced natively: an improving change that flips the heavy side can receive a negative impact; a same-side round trip can total +1 unit.',
     note='Known findings C03::finding_improved_cross_over_is_negative and C03::finding_same_side_round_trip_gains_one_unit (by design / rounding, not repaired). The worse-of-real-and-virtual selection is not covered.')
 
 
